@@ -7,6 +7,12 @@
         the block alphabet TLC generated; ImplMonitor.tla checks on every reachable state that the real view
         equals the view of a fresh real monitor replaying the surviving chain (property) and compares every
         edge with Monitor!Step (conformance).
+        Late-setup graphs: the channel is set up (its monitor becomes a listener of the tracker) IN THE MIDDLE of
+        a streamed first block - between two BlockChunk messages, the chunk boundary inside a transaction - and
+        every later block is delivered both compact and streamed; reference = a channel set up before that block
+        that saw the same best chain (heights compared as depths: the late monitor's height lags by one).  The
+        monitor's private block-decode state cannot be snapshotted, so these graphs re-enter a state by
+        re-executing its request path on a new signer, and fresh replays run on a signer of their own.
  leg C  TLC-simulated longer histories with mixed delivery modes are replayed through the implementation and
         validated by TraceMonitor.tla."""
 import json
@@ -45,11 +51,22 @@ def _plan(tier):
             ("q", "fundee", 2, 5, "streamed", False)]
 
 
+def _late_plan(tier):
+    """channel set up in the middle of a streamed first block (first block, chunks delivered before the setup),
+    then every block in both deliveries: (cat, variant, maxtx, maxlen, late)"""
+    if tier == "quick":
+        return [("m", "funder", 2, 4, (["OTH"], 3)), ("q", "fundee", 2, 4, ([], 2))]
+    return [("m", "funder", 2, 5, (["OTH"], 2)), ("m", "funder", 2, 4, (["OTH"], 3)),
+            ("h", "funder", 2, 4, ([], 2)), ("b", "funder", 2, 5, (["OTH"], 3)), ("q", "fundee", 2, 5, ([], 2))]
+
+
 def _violation(x):
     what = ("%s on the real implementation: %s [%s, %s, %d instance(s)]" % (
         ("signer aborted (%s)" % x["msg"]) if x["rc"] == 2 else
         ("view differs from the fresh replay of the surviving chain in %s" % ",".join(x["diff"])),
-        " ; ".join("%s%s" % (r["op"], json.dumps(r["b"]) if r["op"] == "C" else "") for r in x["requests"]),
+        " ; ".join("%s%s%s" % ({"L": "SETUP-DURING-STREAMED", "C": "C", "D": "D"}[r["op"]],
+                              json.dumps(r["b"]) if r["op"] != "D" else "",
+                              "/streamed" if r["op"] == "C" and r.get("m") == "streamed" else "") for r in x["requests"]),
         x["variant"], x["mode"], x["instances"]))
     return {"key": "C14:" + x["key"], "what": what,
             "replay": {"kind": "monitor-seq", "variant": x["variant"], "requests": x["requests"],
@@ -84,6 +101,12 @@ def run(pid, tier):
                                            "wall_s": round(a2["wall_s"], 1)}
         a_states += a2["states"]
         a_distinct += a2["distinct"]
+    # the model of a channel set up in the middle of a streamed first block
+    al = mon.leg_a("late", "q", "funder", 2, 4, switches=head, workers=4, late=True)
+    cov["legs"]["A_model_late_setup"] = {"states": al["states"], "distinct": al["distinct"], "depth": al["depth"],
+                                         "violated": al["violated"], "wall_s": round(al["wall_s"], 1)}
+    a_states += al["states"]
+    a_distinct += al["distinct"]
     # with a model that satisfies C14 there is exactly one state per valid chain
     full = a if not a["violated"] else a2
     model_chains = full["distinct"] if not full["violated"] else None
@@ -93,13 +116,16 @@ def run(pid, tier):
     # ---- leg B: implementation state graphs
     tot_nodes = tot_edges = tot_product = tot_gen = 0
     samples = []
-    for cat, variant, maxtx, maxlen, mode, expand in _plan(tier):
-        ex = mon.extract(binpath, cat, variant, maxtx, maxlen, mode, expand, threads=8 if quick else 12)
+    plan = [p + (None,) for p in _plan(tier)] + [(c, v, mt, ml, "mixed", True, late) for c, v, mt, ml, late in _late_plan(tier)]
+    for cat, variant, maxtx, maxlen, mode, expand, late in plan:
+        ex = mon.extract(binpath, cat, variant, maxtx, maxlen, mode, expand, threads=8 if quick else 12, late=late)
         r = mon.impl_tlc(ex, head)
         rep = r["report"]
         if not rep["root_ok"]:
             raise vlib.ToolError("monitor harness: initial state is not the specification's initial state")
         name = "B_impl_%s_%s_tx%d_len%d_%s" % (cat, variant, maxtx, maxlen, mode)
+        if late is not None:
+            name += "_late_setup_after_%d_chunks_of_%s" % (late[1], "+".join(late[0]) or "empty")
         inst = mon.impl_instances(ex, rep)
         cov["legs"][name] = {
             "impl_states": rep["nodes"], "impl_edges": rep["edges"], "distinct_chains": rep["chains"],
@@ -126,7 +152,7 @@ def run(pid, tier):
             raise vlib.ToolError("ImplMonitor: invariant verdict %s disagrees with the edge report (%d)" % (
                 r["violated"], len(rep["first_bad"])))
         instances += inst
-        if (cat, variant, maxtx, maxlen) == acfg and model_chains is not None:
+        if (cat, variant, maxtx, maxlen) == acfg and model_chains is not None and late is None:
             # converse direction: the implementation graph covers every chain of the model, and no other
             cov["legs"][name]["model_chains"] = model_chains
             if model_chains != rep["chains"]:
@@ -134,7 +160,7 @@ def run(pid, tier):
                     rep["chains"], model_chains))
         if not samples:
             for row in ex["rows"]:
-                if len(row["c"]) >= 3 and len(row["e"]) >= 2 and row["v"] == row["f"] \
+                if late is None and len(row["c"]) >= 3 and len(row["e"]) >= 2 and row["v"] == row["f"] \
                         and sum(len(b) for b in mon.chain_blocks(ex, row)) >= 3:
                     samples.append({"chain": mon.chain_blocks(ex, row), "mode": mode,
                                     "requests_applied": [mon.edge_requests(ex, row, e[1])[-1] for e in row["e"][:3]],
